@@ -605,16 +605,14 @@ Proof.
     simpl; try reflexivity; lia.
 Qed.
 
-(* no_duplicates: exactly when a string or integer field has more than one non-null value, all distinct *)
-Lemma nodup_rule_int_or_string c : (c_type c = TString \/ c_type c = TInt) ->
+(* no_duplicates: exactly when a non-real field has more than one non-null value, all distinct *)
+Lemma nodup_rule_counted c : counts_distinct (c_type c) = true ->
   (d_no_duplicates c = [CNoDup (Some true)] <->
    has_rows c = true /\ (1 < Z.of_nat (length (non_nulls c))) /\ NoDupV (non_nulls c)).
 Proof.
-  intro Ht. unfold d_no_duplicates, nunique_used, is_str, nunique, non_null_count.
-  assert (Hb : ctype_eqb (c_type c) TString || ctype_eqb (c_type c) TInt = true)
-    by (destruct Ht as [->| ->]; reflexivity).
-  assert (Hr : negb (ctype_eqb (c_type c) TReal) = true) by (destruct Ht as [->| ->]; reflexivity).
-  rewrite Hb, Hr, andb_true_r.
+  intro Ht. unfold d_no_duplicates, nunique_used, nunique, non_null_count. rewrite Ht.
+  assert (Hr : negb (ctype_eqb (c_type c) TReal) = true) by (destruct (c_type c); try reflexivity; discriminate).
+  rewrite Hr, andb_true_r.
   destruct (has_rows c); cbn [andb]; [|split; [discriminate|intros [H _]; discriminate]].
   destruct (Z.eqb_spec (Z.of_nat (length (vdedup (non_nulls c)))) (Z.of_nat (length (non_nulls c)))) as [E|E];
     cbn [andb].
@@ -625,28 +623,21 @@ Proof.
   - split; [discriminate|]. intros (_ & _ & Hnd). rewrite (NoDupV_vdedup _ Hnd) in E. congruence.
 Qed.
 
-Lemma nodup_rule_other c : c_type c <> TString -> c_type c <> TInt -> d_no_duplicates c = [].
+Lemma nodup_rule_other c : counts_distinct (c_type c) = false -> d_no_duplicates c = [].
 Proof.
-  intros H1 H2. unfold d_no_duplicates, nunique_used, is_str.
-  assert (Hb : ctype_eqb (c_type c) TString || ctype_eqb (c_type c) TInt = false)
-    by (destruct (c_type c); try reflexivity; congruence).
-  rewrite Hb. change (1 <? -1) with false. rewrite andb_false_r. reflexivity.
+  intros H. unfold d_no_duplicates, nunique_used. rewrite H. change (1 <? -1) with false. rewrite andb_false_r. reflexivity.
 Qed.
 
 Theorem disc_no_duplicates_iff_proof c :
   d_no_duplicates c = [CNoDup (Some true)] <->
-  has_rows c = true /\ (c_type c = TString \/ c_type c = TInt) /\
+  has_rows c = true /\ counts_distinct (c_type c) = true /\
   (1 < Z.of_nat (length (non_nulls c))) /\ NoDupV (non_nulls c).
 Proof.
-  destruct (c_type c) eqn:Et.
-  1,3,5,6: (rewrite nodup_rule_other by congruence; split; [discriminate|];
-            intros (_ & [H|H] & _); discriminate).
-  - rewrite nodup_rule_int_or_string by (right; exact Et). split.
+  destruct (counts_distinct (c_type c)) eqn:Et.
+  - rewrite nodup_rule_counted by exact Et. split.
     + intros (H1 & H2 & H3). repeat split; auto.
     + intros (H1 & _ & H2 & H3). repeat split; auto.
-  - rewrite nodup_rule_int_or_string by (left; exact Et). split.
-    + intros (H1 & H2 & H3). repeat split; auto.
-    + intros (H1 & _ & H2 & H3). repeat split; auto.
+  - rewrite nodup_rule_other by exact Et. split; [discriminate|]. intros (_ & H & _). discriminate.
 Qed.
 
 (* sign: the reported class holds for every value and no stronger class does *)
@@ -798,18 +789,13 @@ Qed.
 
 Lemma closure_no_duplicates p c k : In k (d_no_duplicates c) -> verify p (Some c) k = true.
 Proof.
-  intro Hin. destruct (c_type c) eqn:Et.
-  1,3,5,6: (rewrite nodup_rule_other in Hin by congruence; destruct Hin).
+  intro Hin. destruct (counts_distinct (c_type c)) eqn:Et.
   - assert (d_no_duplicates c = [CNoDup (Some true)]) as Hd
       by (destruct (d_no_duplicates c) eqn:E; [destruct Hin|];
           unfold d_no_duplicates in E; destruct (_ && _ && _ && _); inversion E; reflexivity).
     rewrite Hd in Hin. destruct Hin as [<-|[]].
-    apply verify_no_duplicates_spec_proof. apply nodup_rule_int_or_string in Hd; [tauto|auto].
-  - assert (d_no_duplicates c = [CNoDup (Some true)]) as Hd
-      by (destruct (d_no_duplicates c) eqn:E; [destruct Hin|];
-          unfold d_no_duplicates in E; destruct (_ && _ && _ && _); inversion E; reflexivity).
-    rewrite Hd in Hin. destruct Hin as [<-|[]].
-    apply verify_no_duplicates_spec_proof. apply nodup_rule_int_or_string in Hd; [tauto|auto].
+    apply verify_no_duplicates_spec_proof. apply nodup_rule_counted in Hd; [tauto|exact Et].
+  - rewrite nodup_rule_other in Hin by exact Et. destruct Hin.
 Qed.
 
 Lemma uniques_length c : Z.of_nat (length (uniques c)) = nunique c.
